@@ -406,6 +406,10 @@ def run(ctx):
     C.check(okc, 'C09-DEV-counterpart', 'merge_element|position-decides-only-without-counterparts', 'merge_element classifies two elements of different kinds by their specification position without first searching each of them on the other side: '
             'the same identifiable element at different positions in the two files ends up twice in the merged model (once imported, once model-only), attributed to one file each', me.where(lt[0]) if lt else '',
             sample={'fn': 'merge_element', 'searches_before_position_rule': ['counterpart(parent_b, elem_a)', 'counterpart(parent_a, elem_b)']})
+    # a rejected file leaves nothing behind (shared with C10-MUST-rollback)
+    C.rule('C09-MUST-rollback', 'when the merge of a loaded file fails, what was already merged is removed again through Element::remove_from_file(new file) before the error is returned: a rejected file does not change the model')
+    from c10 import rollback_rule
+    rollback_rule(C, P, 'C09-MUST-rollback')
     # ---------------- FLOW-progress ----------------
     nl = 0
     for h, ok, ev in PN.loop_progress(me):
